@@ -198,6 +198,13 @@ def verify_function(c, rep, tier='quick', timeout_ms=8000, bound=3):
                 r = s.check()
         except Undecided:
             r = z3.unknown
+        # canary: `False` under the entry hypotheses (precondition + facts) must NOT be discharged by the same pipeline
+        try:
+            cst, cbe, cdt, cdet = E.discharge(E.Obligation('canary', list(ex.pre_pc), z3.BoolVal(False), 0, 'canary'), 2000)
+        except Exception as exn:
+            cst, cbe, cdt, cdet = 'unknown', 'z3', 0., repr(exn)
+        out.append(rep.add(Ob('%s::vacuity:canary-false-is-not-provable' % c.qualname, 'P', 'fault' if cst == 'ok' else 'ok', cbe, cdt,
+                              'the entry hypotheses prove False: contradictory precondition or broken pipeline' if cst == 'ok' else '', function=qn)))
         out.append(rep.add(Ob('%s::vacuity:precondition-satisfiable' % c.qualname, 'P',
                               'ok' if r == z3.sat else 'fault', 'z3', 0, '' if r == z3.sat else 'precondition has no small model: %s' % r, function=qn)))
     # run-time evaluation of the same contract on concrete states (bounded stand-in / cross-check)
